@@ -32,11 +32,11 @@ def gen_history(r, hid, max_lifetimes=3, max_ops=12, panic_prob=0.25):
     decl = ",".join(ts + FAKES)
     return f"{hid} {decl} " + "|".join(",".join(o) if o else "-" for o in lifetimes), lifetimes
 
-def run_hist(exe, lines, fork=True, nodiff=False, timeout=900, shards=None):
+def run_hist(exe, lines, fork=True, nodiff=False, timeout=900, shards=None, novals=False):
     """shard the histories over processes; returns parsed observations"""
     shards = shards or min(vlib.NPROC, max(1, len(lines) // 8))
     chunks = [lines[i::shards] for i in range(shards)]
-    args = [exe, "hist"] + (["--fork"] if fork else []) + (["--nodiff"] if nodiff else [])
+    args = [exe, "hist"] + (["--fork"] if fork else []) + (["--nodiff"] if nodiff else []) + (["--novals"] if novals else [])
     procs = [subprocess.Popen(args, stdin=subprocess.PIPE, stdout=subprocess.PIPE, stderr=subprocess.DEVNULL, text=True) for _ in chunks]
     import threading
     outs = [""] * len(procs)
@@ -59,7 +59,7 @@ def seg_project(evs, what):
 
 def judge(hid, line, lifetimes, h, mline, synth_val, project="full"):
     """-> dict(corr=[...], c02=[...], c03=[...], c12=[...], c17=[...], crashed=bool, nontrivial=tuple)"""
-    J = dict(corr=[], c02=[], c03=[], c12=[], c17=[], crashed=False)
+    J = dict(corr=[], c02=[], c03=[], c12=[], c17=[], c05=[], c06=[], crashed=False)
     case = dict(id=hid, history=line)
     recs = h["recs"]
     if h["child"] and not h["child"].startswith("exit:0"):
@@ -91,9 +91,17 @@ def judge(hid, line, lifetimes, h, mline, synth_val, project="full"):
         mev = reallib.norm_model_events(m["ev"], memo)
         if seg_project(mev, project) != seg_project(r.ev, project):
             J["corr"].append(dict(case=case, what=f"event segment differs at L{r.l} {r.tag} (projection {project})", impl=r.ev, model=mev))
-        ires = "cont" if r.res in ("installed",) or r.res.startswith("val=") else r.res
+        rparts = r.res.split(";")
+        ires = "cont" if rparts[0] in ("installed",) or rparts[0].startswith("val=") else rparts[0]
         if ires != m["res"]:
             J["corr"].append(dict(case=case, what=f"outcome differs at L{r.l} {r.tag}", impl=r.res, model=m["res"]))
+        if r.tag == "EXIT":
+            extra = dict(p.split("=") for p in rparts[1:] if "=" in p)
+            tail = dict(p.split("=") for p in m["tail"].split() if "=" in p)
+            if "panics" in extra and tail.get("RAISED") != extra["panics"]:
+                J["corr"].append(dict(case=case, what=f"number of panics raised differs at L{r.l} EXIT", impl=extra["panics"], model=tail.get("RAISED")))
+            if extra.get("lock") == "ok" and tail.get("UNLOCKED") != "true":
+                J["corr"].append(dict(case=case, what=f"lock state differs at L{r.l} EXIT", impl=extra.get("lock"), model=tail.get("UNLOCKED")))
         # refinement: the model's resolve (executing model memory) names the function the call must reach
         if r.vals is not None:
             for t, v in r.vals.items():
@@ -124,7 +132,7 @@ def judge(hid, line, lifetimes, h, mline, synth_val, project="full"):
             # the op that panicked (if any) is the first one without a record
             k = len([x for x in recs if x.l == r.l and x.tag != "EXIT"])
             if k < len(lifetimes[r.l]): op = lifetimes[r.l][k]
-        if op and op.startswith("I:"): named.add(op.split(":")[1])
+        if op and op.startswith(("I:", "T:")): named.add(op.split(":")[1])
         # C12 bookkeeping on system calls
         for e in r.ev:
             t = e.split()
@@ -166,15 +174,15 @@ def judge(hid, line, lifetimes, h, mline, synth_val, project="full"):
             for t in targets:
                 if r.snap.get(t) != h["orig"].get(t):
                     J["c02"].append(dict(case=case, what=f"after scope exit of lifetime {r.l} the bytes of {t} are {r.snap.get(t)} instead of {h['orig'].get(t)}"))
-            if r.vals is not None:
+            if r.vals:
                 for t in targets:
                     if r.vals.get(t) != origvals.get(t):
                         J["c02"].append(dict(case=case, what=f"after scope exit of lifetime {r.l} {t}(7) = {r.vals.get(t)} instead of {origvals.get(t)}"))
             elif J["crashed"]:
                 J["c02"].append(dict(case=case, what=f"process died ({h['child']}) calling the targets after scope exit of lifetime {r.l}"))
-            if r.jits:
+            if r.jits and "MPFAIL" not in line:
                 J["c12"].append(dict(case=case, what=f"trampolines still mapped after scope exit of lifetime {r.l}", jits=list(r.jits)))
-        elif r.vals is not None:
+        elif r.vals:
             exp = spec.get((r.l, r.tag), {})
             for t in targets:
                 want = exp.get(t, origvals.get(t))
@@ -182,7 +190,51 @@ def judge(hid, line, lifetimes, h, mline, synth_val, project="full"):
                     J["c02"].append(dict(case=case, what=f"while installed, at L{r.l} {r.tag}: {t}(7) = {r.vals.get(t)}, the latest installation says {want}"))
         elif J["crashed"] and r is recs[-1]:
             J["c02"].append(dict(case=case, what=f"process died ({h['child']}) calling the targets at L{r.l} {r.tag}"))
-    if h["end"] is not None and h["end"].get("rwx_equal") != "true":
+    # ---- C05: panics, aborts, lock; C06/C07: the counting semantics, lifetime by lifetime
+    if h["child"] and h["child"].startswith("signal:"):
+        J["c05"].append(dict(case=case, what=f"process terminated by {h['child']} (abort or crash) during the history"))
+    import reallib as RL
+    for li, ops in enumerate(lifetimes):
+        ex = [r for r in recs if r.l == li and r.tag == "EXIT"]
+        oprecs = {r.tag: r for r in recs if r.l == li and r.tag != "EXIT"}
+        if not ex: continue
+        ex = ex[0]
+        parts = ex.res.split(";"); extra = dict(p.split("=") for p in parts[1:] if "=" in p)
+        if int(extra.get("panics", "0")) > 1:
+            J["c05"].append(dict(case=case, what=f"{extra['panics']} panics raised in lifetime {li}"))
+        if extra.get("lock") == "timeout":
+            J["c05"].append(dict(case=case, what=f"after lifetime {li} another thread could not create an injector within 3 s"))
+        if parts[0].startswith("panic"):
+            for t in targets:
+                if ex.snap.get(t) != h["orig"].get(t):
+                    J["c05"].append(dict(case=case, what=f"after unwinding lifetime {li} the bytes of {t} are {ex.snap.get(t)} instead of {h['orig'].get(t)}"))
+        # counting semantics (fresh count per installation)
+        cur, count, order, expect_exit, stopped = {}, {}, [], None, False
+        for oi, op in enumerate(ops):
+            t = op.split(":")
+            rec = oprecs.get(f"OP{oi}")
+            if t[0] == "T": cur[t[1]] = int(t[2]); count[int(t[2])] = 0; order.append(int(t[2]))
+            elif t[0] == "I": cur[t[1]] = None
+            elif t[0] in ("C", "CX") and cur.get(t[1]) is not None:
+                k = cur[t[1]]
+                if t[0] == "CX" and RL.SITE_WHEN[k]: expect_exit = "panic:args"; stopped = True
+                elif RL.SITE_N[k] is not None:
+                    prev = count[k]; count[k] += 1
+                    if prev >= RL.SITE_N[k]: expect_exit = "panic:overcalled"; stopped = True
+                if not stopped and rec is not None and rec.res.split(";")[0] != f"val={4000 + k}":
+                    J["c06"].append(dict(case=case, what=f"admitted call at L{li} OP{oi} returned {rec.res} instead of {4000 + k}"))
+                if stopped and rec is not None:
+                    J["c06"].append(dict(case=case, what=f"call at L{li} OP{oi} should have panicked ({expect_exit}) but returned {rec.res}", counts=dict(count)))
+            elif t[0] in ("P", "BADSIG", "BADBOOL", "NULL", "NOMEM", "MPFAIL"):
+                expect_exit = {"P": "panic:user", "BADSIG": "panic:sig", "BADBOOL": "panic:boolgate", "NULL": "panic:null", "NOMEM": "panic:nomem", "MPFAIL": "panic:mprotect"}[t[0]]; stopped = True
+            if stopped: break
+        if any(o.split(":")[0] == "T" for o in ops):
+            if not stopped:
+                bad = [k for k in order if RL.SITE_N[k] is not None and count[k] != RL.SITE_N[k]]
+                expect_exit = f"panic:count:{RL.SITE_N[bad[0]]}:{count[bad[0]]}" if bad else "normal"
+            if parts[0] != expect_exit:
+                J["c06"].append(dict(case=case, what=f"lifetime {li} ended with {parts[0]}, the counting rule says {expect_exit}", counts={str(k): v for k, v in count.items()}))
+    if h["end"] is not None and h["end"].get("rwx_equal") != "true" and "MPFAIL" not in line:
         J["c12"].append(dict(case=case, what="anonymous rwx mappings differ before/after the history", end=h["end"]))
     if J["crashed"] and not recs:
         J["corr"].append(dict(case=case, what="process died before the first boundary", detail=h["child"]))
@@ -190,7 +242,7 @@ def judge(hid, line, lifetimes, h, mline, synth_val, project="full"):
                   any(len([o for o in ops if o.startswith("I:") and o.split(":")[1] == t]) > 1 for ops in lifetimes for t in set(o.split(":")[1] for o in ops if o.startswith("I:"))))
     return J
 
-def check_histories(res, prop_key, n, seed, project, max_lifetimes=3, extra_lines=None, lifo=1):
+def check_histories(res, prop_key, n, seed, project, max_lifetimes=3, extra_lines=None, lifo=1, gen=None, novals=False, nodiff=False):
     """run n random histories (+ corpus) and fold the judgement for one property into `res`"""
     exe = reallib.build(res)
     if not exe: return
@@ -198,8 +250,8 @@ def check_histories(res, prop_key, n, seed, project, max_lifetimes=3, extra_line
     cases = []
     for l, lts in (extra_lines or []): cases.append((l, lts))
     for i in range(n):
-        cases.append(gen_history(r, f"h{i}", max_lifetimes=max_lifetimes))
-    H = run_hist(exe, [c[0] for c in cases])
+        cases.append((gen or gen_history)(r, f"h{i}", max_lifetimes=max_lifetimes))
+    H = run_hist(exe, [c[0] for c in cases], novals=novals, nodiff=nodiff)
     mlines, meta = [], {}
     for line, lts in cases:
         hid = line.split()[0]
